@@ -417,6 +417,7 @@ class FlowGen:
                          (2 if loop_depth < self.max_loop_depth else 0,
                           "while"),
                          (4 if deep else 1, "guarded-exit"),
+                         (3 if deep else 1, "exit-in-expression"),
                          (2 if deep else 1, "finally-exit"),
                          (1 if not in_fn and loop_depth < 2 else 0, "fncall")])
         if k == "log":
@@ -433,6 +434,52 @@ class FlowGen:
             if e is None:
                 return [self.observe(vars_)]
             return [("if", [(self.logged_cond(vars_), [e])], None)]
+        if k == "exit-in-expression":
+            # an exit reached while an argument, an operand, a literal element
+            # or the value of an element assignment is evaluated leaves the
+            # loop / function at once: the enclosing operation never happens
+            e = self.exit_stmt(loop_depth, in_fn)
+            if e is None:
+                return [self.observe(vars_)]
+            self.features.add("exit-in-expression")
+            ex = ("blocke", ("block", [e], [], None))
+            if ch.bool(0.4):
+                ex = ("ife", [(self.cond(vars_), [e])], None)
+            ctx = ch.choice(["log-arg", "call-arg", "operand", "setindex",
+                             "map-value", "set-elem", "obj-member",
+                             "setmember", "named-arg", "index", "cond"])
+            self.features.add("exit-in-" + ctx)
+            if ctx == "log-arg":
+                return [tag_log(self.tag(), ex)]
+            if ctx == "call-arg":
+                return [log(call("chk", ("int", self.tag()), ex))]
+            if ctx == "named-arg":
+                return [log(("call", "chk", [("named", "v", ex),
+                                             ("named", "t",
+                                              ("int", self.tag()))]))]
+            if ctx == "operand":
+                return [tag_log(self.tag(), ("bin", "+", ("list", []), ex))]
+            if ctx == "map-value":
+                return [tag_log(self.tag(), ("map", [(("int", 1), ex)]))]
+            if ctx == "set-elem":
+                return [tag_log(self.tag(), ("set", [("int", 1), ex]))]
+            if ctx == "obj-member":
+                return [tag_log(self.tag(), ("obj", [("a", ex)]))]
+            if ctx == "index":
+                return [tag_log(self.tag(),
+                                ("index", ("list", [("int", 4), ("int", 5)]),
+                                 ex))]
+            if ctx == "cond":
+                return [("if", [(ex, [self.observe(vars_)])],
+                         [self.observe(vars_)])]
+            t = self.fresh("t")
+            if ctx == "setindex":
+                return [("def", t, ("list", [("int", 0)])),
+                        ("setindex", ("var", t), ("int", 0), ex),
+                        tag_log(self.tag(), ("var", t))]
+            return [("def", t, ("obj", [("a", ("int", 0))])),
+                    ("setmember", ("var", t), "a", ex),
+                    tag_log(self.tag(), ("member", ("var", t), "a"))]
         if k == "finally-exit":
             e = self.exit_stmt(loop_depth, in_fn)
             if e is None:
